@@ -890,7 +890,7 @@ def rule_dce(ctx):
                 if any(c is o for o in opt for c in ast.walk(t)) and (
                         _re_once(tsrc, v) or f'{v} not in ' in tsrc or f'id({v}) not in ' in tsrc):
                     dedup = True
-        if norm(lp.iter).startswith(('dict.fromkeys(', 'set(')):
+        if norm(lp.iter).startswith('dict.fromkeys('):      # (a set dedupes too, but visits in hash order: C20.order)
             dedup = True
         ctx.ob('C01.dce', f'{so.module.name}:SynthObject._perform_dead_code_elimination:{norm(opt[0])}:once-per-input', dedup,
                f'{norm(opt[0])} runs once per input slot: for a dead unit that reads a rewritable sum in both slots (t * t) the second call '
